@@ -5,6 +5,7 @@ import GoFlags.Ini
 import GoFlags.Lemmas.Tables
 
 import GoFlags.Props.C01.Step
+import GoFlags.Lemmas.Occurrences
 
 namespace GoFlags.C05
 open GoFlags Bytes
@@ -175,4 +176,182 @@ theorem closed_option_survives_defaults_phase (E : Env) (help : HelpFn) (r : ORe
         simp only
         rw [ih _ (by simp only; rw [hother]; exact hclosed)]
         exact hother
+
+/-! ### The defaults phase, option by option -/
+
+
+/-- two parsers with the same declarations that hold the same record for option `r` -/
+structure AgreeAt (r : ORef) (P Q : Parser) : Prop where
+  decl : SameDecl P Q
+  opt : P.opt r = Q.opt r
+  validP : r.valid P
+  validQ : r.valid Q
+
+theorem SameDecl.envKeyNS {P Q : Parser} (h : SameDecl P Q) (r : ORef) : P.envKeyNS r = Q.envKeyNS r := by
+  rw [← Parser.decl_envKeyNS P, ← Parser.decl_envKeyNS Q, h]
+
+theorem optCall_isSome_congr (E : Env) (help : HelpFn) (P Q : Parser) (r : ORef) (v : Option Bytes) (l1 l2 : List Event)
+    (h : P.opt r = Q.opt r) :
+    (optCall E help P r v l1).2.2.isSome = (optCall E help Q r v l2).2.2.isSome := by
+  unfold optCall
+  simp only [h]
+  have cb : ∀ a, (callbackResult help P (Q.opt r).cb a).isSome = (callbackResult help Q (Q.opt r).cb a).isSome := by
+    intro a; unfold callbackResult; split <;> rfl
+  split
+  · split
+    · rfl
+    · split <;> exact cb _
+  · split <;> exact cb _
+
+/-- `Option.Set` reads the parser only through the option's own record and the declarations -/
+theorem optSet_congr (E : Env) (help : HelpFn) (P Q : Parser) (r : ORef) (v : Option Bytes) (l1 l2 : List Event)
+    (h : AgreeAt r P Q) :
+    AgreeAt r (optSet E help P r v l1).1 (optSet E help Q r v l2).1 ∧
+    (optSet E help P r v l1).2.2.isSome = (optSet E help Q r v l2).2.2.isSome := by
+  have hdP := optSet_decl E help P r v l1
+  have hdQ := optSet_decl E help Q r v l2
+  have hvP : r.valid (optSet E help P r v l1).1 := hdP.symm.valid r h.validP
+  have hvQ : r.valid (optSet E help Q r v l2).1 := hdQ.symm.valid r h.validQ
+  have hdecl : SameDecl (optSet E help P r v l1).1 (optSet E help Q r v l2).1 := (hdP.trans h.decl).trans hdQ.symm
+  suffices hs : (optSet E help P r v l1).1.opt r = (optSet E help Q r v l2).1.opt r ∧
+      (optSet E help P r v l1).2.2.isSome = (optSet E help Q r v l2).2.2.isSome from
+    ⟨⟨hdecl, hs.1, hvP, hvQ⟩, hs.2⟩
+  unfold optSet
+  simp only [h.opt]
+  have e1 : (P.modOpt r fun _ => (Q.opt r).markSet).opt r = (Q.opt r).markSet := Parser.opt_modOpt_same P r _ h.validP
+  have e2 : (Q.modOpt r fun _ => (Q.opt r).markSet).opt r = (Q.opt r).markSet := Parser.opt_modOpt_same Q r _ h.validQ
+  split
+  · exact ⟨e1.trans e2.symm, rfl⟩
+  · split
+    · rw [C01.call_leaves_parser, C01.call_leaves_parser]
+      exact ⟨e1.trans e2.symm, optCall_isSome_congr E help _ _ r v l1 l2 (e1.trans e2.symm)⟩
+    · split
+      · simp only [Parser.opt_modOpt_modOpt_same _ _ _ _ h.validP, Parser.opt_modOpt_modOpt_same _ _ _ _ h.validQ]
+        exact ⟨trivial, trivial⟩
+      · simp only [Parser.opt_modOpt_modOpt_same _ _ _ _ h.validP, Parser.opt_modOpt_modOpt_same _ _ _ _ h.validQ]
+        exact ⟨trivial, trivial⟩
+
+theorem modOpt_agree (P Q : Parser) (r : ORef) (f : Opt → Opt) (hf : ∀ o, (f o).decl = o.decl) (h : AgreeAt r P Q) :
+    AgreeAt r (P.modOpt r f) (Q.modOpt r f) := by
+  have d1 := Parser.decl_modOpt P r f hf
+  have d2 := Parser.decl_modOpt Q r f hf
+  refine ⟨(d1.trans h.decl).trans d2.symm, ?_, d1.symm.valid r h.validP, d2.symm.valid r h.validQ⟩
+  rw [Parser.opt_modOpt_same P r f h.validP, Parser.opt_modOpt_same Q r f h.validQ, h.opt]
+
+theorem optSetDefault_congr (E : Env) (help : HelpFn) (P Q : Parser) (r : ORef) (v : Option Bytes) (l1 l2 : List Event)
+    (h : AgreeAt r P Q) :
+    AgreeAt r (optSetDefault E help P r v l1).1 (optSetDefault E help Q r v l2).1 ∧
+    (optSetDefault E help P r v l1).2.2.isSome = (optSetDefault E help Q r v l2).2.2.isSome := by
+  unfold optSetDefault
+  rw [h.opt]
+  split
+  · exact ⟨h, rfl⟩
+  · obtain ⟨ha, he⟩ := optSet_congr E help P Q r v l1 l2 h
+    generalize optSet E help P r v l1 = rp at ha he
+    generalize optSet E help Q r v l2 = rq at ha he
+    obtain ⟨P', lp, ep⟩ := rp
+    obtain ⟨Q', lq, eq⟩ := rq
+    simp only at ha he
+    cases ep with
+    | some e1 =>
+      cases eq with
+      | some e2 => exact ⟨ha, rfl⟩
+      | none => simp at he
+    | none =>
+      cases eq with
+      | some e2 => simp at he
+      | none => exact ⟨modOpt_agree P' Q' r _ (fun o => rfl) ha, rfl⟩
+
+theorem setDefaults_congr (E : Env) (help : HelpFn) (r : ORef) (ds : List Bytes) :
+    ∀ (P Q : Parser) (l1 l2 : List Event), AgreeAt r P Q →
+      AgreeAt r (setDefaults E help r ds P l1).1 (setDefaults E help r ds Q l2).1 := by
+  induction ds with
+  | nil => intro P Q l1 l2 h; exact h
+  | cons d ds ih =>
+    intro P Q l1 l2 h
+    unfold setDefaults
+    obtain ⟨ha, he⟩ := optSetDefault_congr E help P Q r (some d) l1 l2 h
+    generalize optSetDefault E help P r (some d) l1 = rp at ha he
+    generalize optSetDefault E help Q r (some d) l2 = rq at ha he
+    obtain ⟨P', lp, ep⟩ := rp
+    obtain ⟨Q', lq, eq⟩ := rq
+    simp only at ha he
+    cases ep with
+    | some e1 =>
+      cases eq with
+      | some e2 => exact ha
+      | none => simp at he
+    | none =>
+      cases eq with
+      | some e2 => simp at he
+      | none => exact ih P' Q' lp lq ha
+
+theorem usedDefault_congr (E : Env) (P Q : Parser) (r : ORef) (h : AgreeAt r P Q) : usedDefault E P r = usedDefault E Q r := by
+  unfold usedDefault
+  rw [h.opt, SameDecl.envKeyNS h.decl]
+
+theorem optClearDefault_congr (E : Env) (help : HelpFn) (P Q : Parser) (r : ORef) (l1 l2 : List Event) (h : AgreeAt r P Q) :
+    AgreeAt r (optClearDefault E help P r l1).1 (optClearDefault E help Q r l2).1 := by
+  unfold optClearDefault
+  rw [h.opt, usedDefault_congr E P Q r h]
+  split
+  · exact h
+  · simp only
+    have h1 := modOpt_agree P Q r (fun o => { o with isSetDefault := true }) (fun o => rfl) h
+    have h2 := modOpt_agree _ _ r Opt.empty Opt.empty_decl h1
+    split
+    · exact setDefaults_congr E help r _ _ _ _ _ h2
+    · split
+      · exact h2
+      · exact h1
+
+/-- **What the defaults phase leaves in an option is decided by that option alone**: after defaults
+    have been applied to all options of the parser (each once, in any order), an option holds
+    exactly what `clearDefault` makes of ITS OWN record as it stood before the phase — its
+    environment variable when set, else its default tags, else what it held — whatever the other
+    options declare, hold or receive. -/
+theorem defaults_phase_is_per_option (E : Env) (help : HelpFn) (r : ORef) (rs : List ORef) :
+    ∀ (s : PS) (P0 : Parser) (l0 : List Event), rs.Nodup → r ∈ rs → AgreeAt r s.P P0 →
+      (clearDefaultsAll E help rs s).P.opt r = (optClearDefault E help P0 r l0).1.opt r := by
+  induction rs with
+  | nil => intro s P0 l0 _ hm; simp at hm
+  | cons r' rs ih =>
+    intro s P0 l0 hnd hm hag
+    have hnd' := (List.nodup_cons.mp hnd).2
+    have hnotin := (List.nodup_cons.mp hnd).1
+    unfold clearDefaultsAll
+    by_cases hrr : r' = r
+    · subst hrr
+      -- its turn: afterwards nothing touches it
+      have hc := optClearDefault_congr E help s.P P0 r' s.log l0 hag
+      have hrest : ∀ (t : PS), (clearDefaultsAll E help rs t).P.opt r' = t.P.opt r' := by
+        intro t
+        have : ∀ (rs' : List ORef), r' ∉ rs' → ∀ t : PS, (clearDefaultsAll E help rs' t).P.opt r' = t.P.opt r' := by
+          intro rs'
+          induction rs' with
+          | nil => intro _ t; rfl
+          | cons x xs ihx =>
+            intro hx t
+            have hxr : x ≠ r' := by intro e; apply hx; simp [e]
+            have hxs : r' ∉ xs := by intro e; apply hx; simp [e]
+            unfold clearDefaultsAll
+            have ho := optClearDefault_other E help t.P x r' t.log hxr
+            generalize optClearDefault E help t.P x t.log = res at ho
+            obtain ⟨P', l', e⟩ := res
+            cases e <;> (simp only; rw [ihx hxs]; exact ho)
+        exact this rs hnotin t
+      generalize optClearDefault E help s.P r' s.log = res at hc
+      obtain ⟨P', l', e⟩ := res
+      cases e <;> (simp only; rw [hrest]; exact hc.opt)
+    · have hm' : r ∈ rs := by
+        rcases List.mem_cons.mp hm with h | h
+        · exact absurd h.symm hrr
+        · exact h
+      have ho := optClearDefault_other E help s.P r' r s.log hrr
+      have hd := optClearDefault_decl E help s.P r' s.log
+      generalize optClearDefault E help s.P r' s.log = res at ho hd
+      obtain ⟨P', l', e⟩ := res
+      simp only at ho hd
+      have hag' : AgreeAt r P' P0 := ⟨hd.trans hag.decl, ho.trans hag.opt, hd.symm.valid r hag.validP, hag.validQ⟩
+      cases e <;> (simp only; exact ih _ P0 l0 hnd' hm' hag')
 end GoFlags.C05
